@@ -38,7 +38,7 @@ def smooth_quats(rng, n, dt):
 
 
 def generate(rng, tier, shard, nshards):
-    n = gens.budget(64, tier, nshards, mult=10)
+    n = gens.budget(128, tier, nshards, mult=10)
     for i in range(n):
         given = bool(i % 2)
         noisy = bool((i // 2) % 2)
@@ -69,11 +69,12 @@ def generate(rng, tier, shard, nshards):
         if not given and i % 8 in (0, 2):            # a random trajectory ranging over more than half a turn each way (angles cross +-pi, where q and -q meet)
             kw["span"] = (float(-rng.uniform(np.pi, 2 * np.pi)), float(rng.uniform(np.pi, 2 * np.pi)))
             N = max(N, 250)
-        elif not given and rng.random() < 0.5:        # options of the random-trajectory generator
-            if rng.random() < 0.5:
+        elif not given:        # options of the random-trajectory generator, every combination on a fixed schedule (noise-free and noisy alike)
+            combo = (i // 4) % 4
+            if combo in (1, 2):
                 kw["span"] = (float(-gens.logu(rng, 0.2, 8.0)), float(gens.logu(rng, 0.2, 8.0)))       # narrower and wider than the default half turn each way
-            if rng.random() < 0.4:
-                kw["yaw"] = float(rng.uniform(-170, 170))
+            if combo in (0, 1):
+                kw["yaw"] = float(rng.uniform(-170, 170)) if (i // 16) % 3 else float(rng.choice([0.0, 90.0, -180.0, 180.0]))
         Q = smooth_quats(rng, N, 1.0 / freq) if given else None
         if given and i % 8 in (3, 5):
             # a trajectory read from a log: quaternions rounded to a few decimals (nearly, not exactly, unit) or stored with a common scale
